@@ -6,11 +6,15 @@ sys.path.insert(0, '/verif/rules')
 import engine, mutations
 loader = importlib.machinery.SourceFileLoader('check', '/verif/check'); spec = importlib.util.spec_from_loader('check', loader); m = importlib.util.module_from_spec(spec); loader.exec_module(m)
 keys = None
+counts = {}
+functions = {}
 for prof in ('release', 'dev'):
 	F = engine.Facts(m.ensure_facts(prof)[0])
 	cnt, where, known = mutations.census(F)
 	ks = set(cnt)
 	keys = ks if keys is None else (keys & ks)
+	counts[prof] = [list(k) + [c] for k, c in sorted(cnt.items())]
+	functions[prof] = sorted([fl, t] for fl, ts in known.items() for t in ts)
 p = '/verif/rules/mutations_table.json'
 have = {tuple(x) for x in json.load(open(p))['keys']} if os.path.exists(p) else set()
 print('missing from table   :', len(keys - have))
@@ -18,5 +22,5 @@ for k in sorted(keys - have)[:2000]:
 	print('  +', k)
 print('in table, not in tree:', sorted(have - keys))
 if '--write' in sys.argv:
-	json.dump({'keys': [list(k) for k in sorted(keys | have)]}, open(p, 'w'), indent=0)
+	json.dump({'keys': [list(k) for k in sorted(keys | have)], 'counts': counts, 'functions': functions}, open(p, 'w'), separators=(',', ':'))
 	print('written', len(keys | have))
